@@ -1,8 +1,9 @@
 (* Frame.v — the dependency hypothesis of the refinement theorem is PROVED for "flat" rule sets:
    every variable is a top-level name or a chain of fields and literal selectors below one
    (N, F.X, F.In.X, F.Arr[2], F.M["k"] - no computed selectors),
-   expressions are built from such variables,
-   constants, negation, parentheses and the binary operators; actions are assignments to such
+   expressions are built from such variables, constants, negation, parentheses, the binary operators, the value
+   built-ins (Max, Min, Abs, IsZero, IsNil) and calls of admitted methods (okmeth: side-effect free, independent of the
+   receiver's state, not the container built-in Len) on such variables; actions are assignments to such
    variables and control built-ins with flat arguments.  For these rule sets C01, C02, C04, C07,
    C08, C14 hold without any semantic hypothesis (FrameTheorems below). *)
 From Coq Require Import Relations.
@@ -45,6 +46,7 @@ with flat_atom (a : atom) : bool :=
   | AVar x => flat_var x
   | ANeg a' => flat_atom a'
   | AMethod (AVar r) f args => flat_var r && okmeth f && flat_elist args
+  | AFunc f args => negb (control_builtin f) && flat_elist args          (* the value built-ins: Max, Min, Abs, IsZero, IsNil *)
   | _ => false
   end
 with flat_elist (l : elist) : bool :=
@@ -70,6 +72,24 @@ Proof.
   destruct f as [|c3 f]; [reflexivity|].
   destruct c3 as [[] [] [] [] [] [] [] []]; try reflexivity.
   destruct f as [|c4 f]; [|reflexivity].
+  exfalso. apply H. reflexivity.
+Qed.
+
+Lemma isnil_match : forall (A : Type) (f : string) (vals : list val) (a b : A),
+  f <> "IsNil"%string -> (match f, vals with "IsNil"%string, [_] => a | _, _ => b end) = b.
+Proof.
+  intros A f vals a b H.
+  destruct f as [|c1 f]; [reflexivity|].
+  destruct c1 as [[] [] [] [] [] [] [] []]; try reflexivity.
+  destruct f as [|c2 f]; [reflexivity|].
+  destruct c2 as [[] [] [] [] [] [] [] []]; try reflexivity.
+  destruct f as [|c3 f]; [reflexivity|].
+  destruct c3 as [[] [] [] [] [] [] [] []]; try reflexivity.
+  destruct f as [|c4 f]; [reflexivity|].
+  destruct c4 as [[] [] [] [] [] [] [] []]; try reflexivity.
+  destruct f as [|c5 f]; [reflexivity|].
+  destruct c5 as [[] [] [] [] [] [] [] []]; try reflexivity.
+  destruct f as [|c6 f]; [|reflexivity].
   exfalso. apply H. reflexivity.
 Qed.
 
@@ -421,6 +441,58 @@ Proof.
     destruct (meth tfs f args) as [[r1 s1]| |]; discriminate.
 Qed.
 
+(* ---- the value built-ins: a function of the argument values and, for IsNil, of the shape at the argument's location ---- *)
+Definition views_kept (fx fx' : facts) (vs : list rval) : Prop :=
+  Forall (fun v => forall p, v = RRef p -> view_kept fx fx' p) vs.
+
+Lemma views_scalars : forall fx fx' vs, views_kept fx fx' vs -> map (scalar_of fx') vs = map (scalar_of fx) vs.
+Proof.
+  intros fx fx' vs H. induction H as [|v vs Hv Hvs IH]; simpl; [reflexivity|]. rewrite IH. f_equal.
+  destruct v as [x|p]; [reflexivity|]. apply view_kept_scalar. apply Hv. reflexivity.
+Qed.
+
+Lemma isnil_view : forall fx fx' p, view_kept fx fx' p ->
+  match path_get fx' p with
+  | Ok (FPtr None) => Ok (RV (VBool true))
+  | Ok (FStruct _) | Ok (FPtr (Some _)) => Ok (RV (VBool false))
+  | Ok (FSlice _) | Ok (FMap _) => Ok (RV (VBool false))
+  | _ => Err
+  end =
+  match path_get fx p with
+  | Ok (FPtr None) => Ok (RV (VBool true))
+  | Ok (FStruct _) | Ok (FPtr (Some _)) => Ok (RV (VBool false))
+  | Ok (FSlice _) | Ok (FMap _) => Ok (RV (VBool false))
+  | _ => @Err rval
+  end.
+Proof.
+  intros fx fx' p [E|(c & c' & A & B & C & D)]; [rewrite E; reflexivity|]. rewrite A, B.
+  destruct c as [x|fs|[t|]|xs|kvs]; destruct c' as [x'|fs'|[t'|]|xs'|kvs']; try destruct t; try destruct t';
+    simpl in C, D; try discriminate; try congruence; reflexivity.
+Qed.
+
+Lemma defunc_value_frame : forall fx fx' f vs, views_kept fx fx' vs -> defunc_value fx' f vs = defunc_value fx f vs.
+Proof.
+  intros fx fx' f vs H. unfold defunc_value. cbv zeta. rewrite (views_scalars fx fx' vs H).
+  destruct (String.eqb f "IsNil") eqn:E.
+  - apply String.eqb_eq in E. subst f.
+    destruct (map (scalar_of fx) vs) as [|w [|w2 ws]] eqn:Em; try reflexivity.
+    destruct vs as [|v [|v2 vs']]; try reflexivity. destruct v as [x|p]; try reflexivity.
+    apply isnil_view. inversion H as [|? ? Hv _]; subst. apply Hv. reflexivity.
+  - assert (Hn: f <> "IsNil"%string) by (intro; subst; discriminate).
+    rewrite !(isnil_match _ f _ _ _ Hn). reflexivity.
+Qed.
+
+Lemma defunc_value_not_ref : forall fx f vs p, defunc_value fx f vs <> Ok (RRef p).
+Proof.
+  intros fx f vs p H. unfold defunc_value in H. cbv zeta in H.
+  destruct (String.eqb f "IsNil") eqn:E.
+  - apply String.eqb_eq in E. subst f.
+    destruct (map (scalar_of fx) vs) as [|w [|w2 ws]]; try (destruct (pure_builtin _ _) as [[]|]; discriminate).
+    repeat match type of H with context [match ?x with _ => _ end] => destruct x; try discriminate end.
+  - assert (Hn: f <> "IsNil"%string) by (intro; subst; discriminate).
+    rewrite (isnil_match _ f _ _ _ Hn) in H. destruct (pure_builtin f _) as [[]|]; discriminate.
+Qed.
+
 (* ---- expressions: unchanged variables give unchanged values ---- *)
 Section ExprFrame.
 Variables fx fx' : facts.
@@ -440,7 +512,7 @@ Qed.
 
 Definition unchanged_args (l : elist) : Prop :=
   fresh_args fx' l = fresh_args fx l /\
-  (forall vs, fresh_args fx l = Ok vs -> map (scalar_of fx') vs = map (scalar_of fx) vs).
+  (forall vs, fresh_args fx l = Ok vs -> views_kept fx fx' vs).
 
 Lemma flat_frame :
   (forall e, flat_expr e = true -> (forall y, In y (vars_expr e) -> flat_var y = true -> unchanged_var fx fx' y) -> unchanged_expr e) /\
@@ -483,7 +555,13 @@ Proof.
   - (* AConst *) intros c Hf Hv. rewrite !fresh_atom_unfold. split; [reflexivity|]. intros p E. discriminate.
   - (* AVar *) intros x IH Hf Hv. rewrite !fresh_atom_unfold. simpl in Hf. apply Hv; auto.
     cbn [vars_atom]. destruct x as [n|x' n|x' s]; cbn [vars_var]; left; reflexivity.
-  - (* AFunc *) intros f l IH Hf. discriminate.
+  - (* AFunc *) intros f l IH Hf Hv. simpl in Hf. apply andb_prop in Hf. destruct Hf as [Hc Hfl].
+    apply negb_true_iff in Hc.
+    destruct (IH Hfl Hv) as [Al Bl].
+    rewrite (fresh_atom_unfold meth fx'), (fresh_atom_unfold meth fx). rewrite Al, Hc.
+    destruct (Fresh.fresh_args meth fx l) as [vs| |] eqn:El; try (split; [reflexivity|intros p E; discriminate]).
+    split; [apply defunc_value_frame; apply Bl; reflexivity|].
+    intros p E. exfalso. exact (defunc_value_not_ref fx f vs p E).
   - (* AMethod *) intros a IHa f l IHl Hf Hv. simpl in Hf.
     destruct a as [c|r|f0 l0|a0 f0 l0|a0 n0|a0 e0|a0]; try discriminate.
     apply andb_prop in Hf. destruct Hf as [Hf Hfl]. apply andb_prop in Hf. destruct Hf as [Hfr Hok].
@@ -495,7 +573,7 @@ Proof.
     rewrite (fresh_atom_unfold meth fx'), (fresh_atom_unfold meth fx). rewrite Aa, Al.
     destruct (Fresh.fresh_atom meth fx (AVar r)) as [recv| |] eqn:Er; try (split; [reflexivity|intros p E; discriminate]).
     destruct (Fresh.fresh_args meth fx l) as [vs| |] eqn:El; try (split; [reflexivity|intros p E; discriminate]).
-    rewrite (Bl vs eq_refl).
+    rewrite (views_scalars fx fx' vs (Bl vs eq_refl)).
     split.
     + apply fresh_call_frame; auto. intros p ->. apply Ba. reflexivity.
     + intros p E. exfalso. exact (fresh_call_not_ref fx recv f _ p Hok E).
@@ -505,7 +583,7 @@ Proof.
     rewrite (fresh_atom_unfold meth fx'), (fresh_atom_unfold meth fx). rewrite A. split; [reflexivity|].
     intros p E. apply B. destruct (fresh_atom fx a) as [v| |]; try discriminate.
     destruct v as [x|q]; simpl in E; [destruct x; discriminate|exact E].
-  - (* ENil *) intros Hf Hv. rewrite !fresh_args_unfold. split; [reflexivity|]. intros vs E. inversion E. reflexivity.
+  - (* ENil *) intros Hf Hv. rewrite !fresh_args_unfold. split; [reflexivity|]. intros vs E. inversion E. constructor.
   - (* ECons *) intros e IHe l IHl Hf Hv. simpl in Hf. apply andb_prop in Hf. destruct Hf as [Hfe Hfl].
     assert (Hve: forall y, In y (vars_expr e) -> flat_var y = true -> unchanged_var fx fx' y)
       by (intros; apply Hv; auto; simpl; apply in_or_app; auto).
@@ -515,7 +593,7 @@ Proof.
     rewrite (fresh_args_unfold meth fx'), (fresh_args_unfold meth fx). rewrite Ae, Al. split; [reflexivity|].
     intros vs E. destruct (Fresh.fresh_expr meth fx e) as [v| |] eqn:Ee; try discriminate.
     destruct (Fresh.fresh_args meth fx l) as [vs0| |] eqn:El; try discriminate. inversion E; subst.
-    simpl. rewrite (scalar_same _ v Be eq_refl), (Bl vs0 eq_refl). reflexivity.
+    constructor; [intros p ->; apply Be; reflexivity|apply Bl; reflexivity].
 Qed.
 End ExprFrame.
 
@@ -606,7 +684,8 @@ Proof.
     + apply incl_appr. eauto.
   - intros c Hf y H. inversion H.
   - intros x _ Hf y H. simpl in *. apply vars_var_closed; auto.
-  - intros f l _ Hf. discriminate.
+  - intros f l IHl Hf y H. simpl in Hf. apply andb_prop in Hf. destruct Hf as [_ Hfl].
+    cbn [vars_atom] in *. exact (IHl Hfl y H).
   - intros a IHa f l IHl Hf y H. simpl in Hf.
     destruct a as [c0|r|f0 l0|a0 f0 l0|a0 n0|a0 e0|a0]; try discriminate.
     apply andb_prop in Hf. destruct Hf as [Hf Hfl]. apply andb_prop in Hf. destruct Hf as [Hfr _].
